@@ -17,6 +17,10 @@ B_THOROUGH = B_QUICK + ['x64-soft', 'x64-alt1', 'x64-alt2', 'x64-aesni-all', 'a6
                         'x86-soft-all', 'x86-alt1-all']
 
 REGISTRY = {
+    'C20': dict(module='c20', level='proof', technique='abstract interpretation of monomorphic MIR (intervals x known-bits, constant propagation with unrolling) discharging every panic edge',
+                quick=['x64'], thorough=['x64', 'x64-soft', 'x64-alt1', 'x64-alt2', 'a64', 'x86', 'x86-alt1-all']),
+    'C11': dict(module='c11', level='proof', technique='abstract interpretation of every constructor for every key length 0..=300 and [301, usize::MAX]',
+                quick=['x64'], thorough=['x64', 'x64-soft', 'x64-alt1', 'x64-alt2', 'a64', 'x86']),
     'C19': dict(module='c19', level='proof', technique='use analysis of `self` + string constant propagation over formatting MIR (static analysis)',
                 quick=['x64', 'x64-soft-all'], thorough=['x64', 'x64-all', 'x64-soft-all', 'x64-alt1-all', 'x64-alt2-all', 'a64', 'a64-soft-all', 'x86-all', 'x86-alt1-all']),
     'C12': dict(module='c12', level='other', technique='dominator / provenance dataflow and call-set agreement over MIR (static analysis)',
